@@ -384,7 +384,7 @@ def check_extra(res, counters):
     w.start()
     from labrea import Map, WithDefaultOptions, WithOptions
 
-    objs = [("WithOptions(datasetclass)", WithOptions(dc, {"B": 4}), {}), ("WithDefaultOptions(datasetclass)", WithDefaultOptions(dc, {"B": 4}), {}),
+    objs = [("datasetclass-direct", dc, {"B": 3}), ("WithOptions(datasetclass)", WithOptions(dc, {"B": 4}), {}), ("WithDefaultOptions(datasetclass)", WithDefaultOptions(dc, {"B": 4}), {}),
             ("Map(datasetclass)", Map(dc, {"B": Option("BS", [1, 2])}).values >> list, {}), ("namespace", ns, {"NS": {"A": 1}}), ("namespace-member", ns.SUB.C, {}), ("datasetclass", dc, {"B": 3}), ("interface-member", iface.m, {"IMPL": "x"}),
             ("interface-default", iface.n, {}), ("dataset-with-LogEffect", dsx, {})]
     for name, obj, o in objs:
@@ -407,6 +407,26 @@ def check_extra(res, counters):
                     fails.append({"sig": f"C18|extra|{name}|{op}|{op2}-bypass", "what": f"{op2} calls bypass the runtime during {op} of {name}",
                                   "detail": f"{len(a)} implementation calls, {len(b)} requests", "case": ("extra",)})
             res["classes"].update(rec.classes)
+    # a handler that substitutes the value of the dataset CLASS is honoured below every wrapper
+    from labrea.types import EvaluateRequest
+
+    prev = runtime.current_runtime().handlers[EvaluateRequest]
+
+    def stub(request):
+        if request.evaluatable is dc:
+            return "STUB"
+        return prev(request)
+
+    for name, obj, o in objs:
+        if "datasetclass" not in name:
+            continue
+        with runtime.handle(EvaluateRequest, stub):
+            got = observe(w, lambda: obj.evaluate(copy.deepcopy(o)))
+        res["evaluations"] += 1
+        want = ["STUB", "STUB"] if name.startswith("Map") else "STUB"
+        if not got.ok or got.value != want:
+            fails.append({"sig": f"C18|extra|substitution|{name}", "what": f"a handler substituting the value of a dataset class is not honoured in {name}",
+                          "detail": f"{got!r}, expected {want!r}", "case": ("extra",)})
     return fails
 
 
